@@ -33,6 +33,10 @@ pub enum Policy {
     Uniform,
     Pct(usize),
     Starve(usize),
+    /// priority scheduling with an enumerated priority order (index of the
+    /// permutation) and enumerated preemption points (`RunSpec::change_points`):
+    /// the systematic sweep
+    Fixed(usize),
 }
 
 impl Policy {
@@ -41,6 +45,7 @@ impl Policy {
             Policy::Uniform => "uniform".into(),
             Policy::Pct(d) => format!("pct{}", d),
             Policy::Starve(w) => format!("starve{}", w),
+            Policy::Fixed(p) => format!("fixed{}", p),
         }
     }
 }
@@ -82,7 +87,7 @@ impl Sched {
         }
         let w = match st.policy {
             Policy::Uniform => cands[st.rng.below(cands.len())],
-            Policy::Pct(_) => {
+            Policy::Pct(_) | Policy::Fixed(_) => {
                 let w = *cands.iter().max_by_key(|&&w| st.prio[w]).unwrap();
                 if st.change_points.contains(&st.steps) {
                     let low = st.prio.iter().min().copied().unwrap_or(0) - 1;
@@ -118,7 +123,7 @@ impl Sched {
             Point::IdleSleep => {
                 st.idle_cycles[w] += 1;
                 st.idle_transitions += 1;
-                if let Policy::Pct(_) = st.policy {
+                if matches!(st.policy, Policy::Pct(_) | Policy::Fixed(_)) {
                     let low = st.prio.iter().min().copied().unwrap_or(0) - 1;
                     st.prio[w] = low;
                 }
@@ -210,6 +215,8 @@ pub struct RunSpec {
     pub policy: Policy,
     pub sched_seed: u64,
     pub quit_at: Option<usize>,
+    /// preemption points (hook step numbers) of a `Policy::Fixed` run
+    pub change_points: Vec<u64>,
 }
 
 impl RunSpec {
@@ -217,6 +224,7 @@ impl RunSpec {
         json!({
             "tree": self.tree.to_json(), "roots": self.roots, "workers": self.workers,
             "policy": self.policy.name(), "sched_seed": self.sched_seed, "quit_at": self.quit_at,
+            "change_points": self.change_points,
         })
     }
     pub fn from_json(v: &Value) -> RunSpec {
@@ -225,6 +233,8 @@ impl RunSpec {
             Policy::Pct(d.parse().unwrap_or(1))
         } else if let Some(w) = pol.strip_prefix("starve") {
             Policy::Starve(w.parse().unwrap_or(0))
+        } else if let Some(p) = pol.strip_prefix("fixed") {
+            Policy::Fixed(p.parse().unwrap_or(0))
         } else {
             Policy::Uniform
         };
@@ -235,6 +245,10 @@ impl RunSpec {
             policy,
             sched_seed: v["sched_seed"].as_u64().unwrap_or(0),
             quit_at: v["quit_at"].as_u64().map(|x| x as usize),
+            change_points: v["change_points"]
+                .as_array()
+                .map(|a| a.iter().filter_map(|x| x.as_u64()).collect())
+                .unwrap_or_default(),
         }
     }
 }
@@ -324,6 +338,18 @@ pub struct RunOutcome {
     pub quit_with_work_queued: u64,
 }
 
+/// The `pi`-th (mod n!) ordering of the priorities 100..100+n.
+fn nth_priority_order(n: usize, pi: usize) -> Vec<i64> {
+    let mut pool: Vec<i64> = (0..n as i64).map(|x| x + 100).collect();
+    let mut out = vec![];
+    let mut k = pi;
+    for i in (1..=n).rev() {
+        out.push(pool.remove(k % i));
+        k /= i;
+    }
+    out
+}
+
 /// One scheduled walk. `on_abort` is called from a worker thread when a
 /// definite livelock or the step bound is hit; it must not return normally
 /// in the child process (it exits the process).
@@ -343,6 +369,7 @@ pub fn scheduled_walk(
             let cps: Vec<u64> = (0..d).map(|_| 1 + rng.below(est as usize) as u64).collect();
             (pr, cps)
         }
+        Policy::Fixed(pi) => (nth_priority_order(n, pi), spec.change_points.clone()),
         _ => (vec![0; n], vec![]),
     };
     let sched = Arc::new(Sched {
@@ -452,10 +479,192 @@ fn judge(spec: &RunSpec, expected: &BTreeMap<String, usize>, out: &RunOutcome, r
     }
 }
 
+/// Run one scheduled walk in this process, account for it and judge it.
+fn exec_spec(
+    spec: &RunSpec,
+    base: &Path,
+    nentries: usize,
+    expected: &BTreeMap<String, usize>,
+    report: &Arc<Mutex<Report>>,
+    out_path: &str,
+) -> u64 {
+    let spec = spec.clone();
+    let workers = spec.workers;
+    let quit_at = spec.quit_at;
+    let out_path = out_path.to_string();
+    let steps;
+    {
+            let rep2 = report.clone();
+            let spec2 = spec.clone();
+            let outp = out_path.clone();
+            let on_abort: Box<dyn Fn(&str, Value) + Send + Sync> = Box::new(move |kind, witness| {
+                let mut rep = rep2.lock().unwrap();
+                if kind == "livelock" {
+                    rep.violation(
+                        &format!("C07:{}:livelock", if spec2.quit_at.is_some() { "quit" } else { "noquit" }),
+                        format!(
+                            "all live workers spin in the idle loop and nobody can make progress ({} workers, policy {}, quit_at {:?}, after {} steps)",
+                            spec2.workers, spec2.policy.name(), spec2.quit_at, witness["steps"]
+                        ),
+                        || json!({"spec": spec2.to_json(), "witness": witness}),
+                    );
+                } else {
+                    rep.inconclusive += 1;
+                    rep.notes.push(format!("step bound exceeded without the livelock signature: {}", witness));
+                }
+                rep.count("runs_aborted");
+                let j = rep.to_json();
+                let _ = fs::write(&outp, serde_json::to_string(&j).unwrap());
+                // real threads are left spinning: leave the process
+                std::process::exit(0);
+            });
+            let out = scheduled_walk(&spec, &base, nentries, on_abort);
+            let mut rep = report.lock().unwrap();
+            rep.evaluations += 1;
+            rep.count("scheduled_runs");
+            rep.count(&format!("policy_{}", match spec.policy { Policy::Uniform => "uniform", Policy::Pct(_) => "pct", Policy::Starve(_) => "starve", Policy::Fixed(_) => "fixed" }));
+            rep.count(&format!("workers_{}", workers));
+            if quit_at.is_some() {
+                rep.count("runs_with_quit_injected");
+            }
+            rep.add("hook_steps", out.steps);
+            rep.add("steals_attempted", out.steals);
+            rep.add("idle_transitions", out.idle_transitions);
+            rep.add("quit_while_work_queued", out.quit_with_work_queued);
+            rep.add("visits_observed", out.visited.len() as u64);
+            rep.max("max_steps_in_a_run", out.steps);
+            let distinct_workers: std::collections::BTreeSet<usize> = out.visited.iter().map(|(w, _)| *w).collect();
+            if distinct_workers.len() > 1 {
+                rep.count("runs_where_several_workers_visited");
+            }
+            rep.nontrivial(out.decisions_hash);
+            judge(&spec, &expected, &out, &mut rep);
+            if rep.samples.len() < 2 {
+                rep.samples.push(json!({
+                    "tree_nodes": spec.tree.nodes.len(), "roots": spec.roots, "workers": spec.workers,
+                    "policy": spec.policy.name(), "quit_at": spec.quit_at, "hook_steps": out.steps,
+                    "visits": out.visited.iter().take(8).map(|(w, p)| format!("w{}:{}", w, p)).collect::<Vec<_>>(),
+                }));
+            }
+        
+        steps = out.steps;
+    }
+    steps
+}
+
+/// The tiny trees of the systematic sweep.
+fn sweep_trees(thorough: bool) -> Vec<(Tree, Vec<String>)> {
+    let mk = |items: &[(&str, bool)]| {
+        let mut t = Tree::default();
+        for (p, is_dir) in items {
+            t.nodes.push(Node {
+                path: p.to_string(),
+                kind: if *is_dir { Kind::Dir } else { Kind::File(1) },
+            });
+        }
+        t
+    };
+    let mut v = vec![
+        (mk(&[("d", true), ("d/e", true), ("d/e/f", false), ("d/g", false), ("h", false)]), vec![String::new()]),
+        (mk(&[("a", true), ("b", true), ("a/x", false), ("b/y", false)]), vec!["a".to_string(), "b".to_string()]),
+        (mk(&[("c", true), ("c/c", true), ("c/c/c", true), ("c/c/c/f", false), ("k", false)]), vec![String::new()]),
+    ];
+    if thorough {
+        v.push((
+            mk(&[("w", true), ("w/1", false), ("w/2", false), ("w/3", false), ("w/d", true), ("w/d/f", false)]),
+            vec![String::new()],
+        ));
+        v.push((
+            mk(&[("a", true), ("b", true), ("c", true), ("a/x", false), ("c/z", true), ("c/z/f", false)]),
+            vec!["a".to_string(), "b".to_string(), "c".to_string()],
+        ));
+    }
+    v
+}
+
+/// Systematic part: on a few tiny trees, for 2 and 3 workers (4 in the
+/// thorough tier), EVERY priority order, the quit request injected at EVERY
+/// visit index (and not at all), and a preemption (the running worker drops
+/// to the lowest priority) at EVERY hook step - and, in the thorough tier, at
+/// every PAIR of hook steps. Together with the forced yields at the idle
+/// sleep this enumerates the schedules of these walks up to preemption bound
+/// 1 (quick) / 2 (thorough) at hook granularity. Work is sharded by item
+/// index over the child processes.
+fn sweep(seed: u64, shard: usize, nshards: usize, thorough: bool, report: &Arc<Mutex<Report>>, out_path: &str) {
+    let mut item = 0usize;
+    let mine = |item: &mut usize| {
+        *item += 1;
+        (*item - 1) % nshards.max(1) == shard
+    };
+    for (ti, (tree, roots)) in sweep_trees(thorough).into_iter().enumerate() {
+        let (private, base) = treegen::fresh_dir("c07s", mix(&[seed, 0x5eed, ti as u64, shard as u64]) & 0xffffffff);
+        if tree.materialise(&base).is_err() {
+            report.lock().unwrap().inconclusive += 1;
+            let _ = fs::remove_dir_all(&private);
+            continue;
+        }
+        let expected = expected_entries(&base, &roots);
+        let nentries: usize = expected.values().sum();
+        let max_workers = if thorough && ti == 0 { 4 } else { 3 };
+        for workers in 2..=max_workers {
+            let nperm: usize = (1..=workers).product();
+            for pi in 0..nperm {
+                let mut quits: Vec<Option<usize>> = vec![None];
+                quits.extend((0..nentries).map(Some));
+                for quit_at in quits {
+                    let spec0 = RunSpec {
+                        tree: tree.clone(),
+                        roots: roots.clone(),
+                        workers,
+                        policy: Policy::Fixed(pi),
+                        sched_seed: 0,
+                        quit_at,
+                        change_points: vec![],
+                    };
+                    // the base schedule is run by every shard: its length
+                    // bounds the preemption points
+                    let s0 = exec_spec(&spec0, &base, nentries, &expected, report, out_path);
+                    report.lock().unwrap().count("sweep_base_schedules");
+                    let horizon = s0 + 8;
+                    for k in 1..=horizon {
+                        if !mine(&mut item) {
+                            continue;
+                        }
+                        let mut sp = spec0.clone();
+                        sp.change_points = vec![k];
+                        exec_spec(&sp, &base, nentries, &expected, report, out_path);
+                        report.lock().unwrap().count("sweep_single_preemption_runs");
+                    }
+                    // pairs: thorough tier, the first and the last priority
+                    // order, quit at none / first / last visit
+                    let pair_quit = quit_at.is_none() || quit_at == Some(0) || quit_at == Some(nentries.saturating_sub(1));
+                    if thorough && workers <= 3 && (pi == 0 || pi + 1 == nperm) && pair_quit {
+                        for k1 in 1..=horizon {
+                            for k2 in (k1 + 1)..=horizon {
+                                if !mine(&mut item) {
+                                    continue;
+                                }
+                                let mut sp = spec0.clone();
+                                sp.change_points = vec![k1, k2];
+                                exec_spec(&sp, &base, nentries, &expected, report, out_path);
+                                report.lock().unwrap().count("sweep_double_preemption_runs");
+                            }
+                        }
+                    }
+                }
+            }
+        }
+        let _ = fs::remove_dir_all(&private);
+    }
+}
+
 /// Child process: runs `nruns` scheduled walks and writes a report.
-pub fn child(seed: u64, nruns: usize, out_path: &str, thorough: bool) {
+pub fn child(seed: u64, nruns: usize, out_path: &str, thorough: bool, shard: usize, nshards: usize) {
     let report = Arc::new(Mutex::new(Report::new()));
     report.lock().unwrap().export_hashes = true;
+    if nshards > 0 {
+        sweep(seed, shard, nshards, thorough, &report, out_path);
+    }
     let mut rng = Rng::new(seed);
     let mut done = 0usize;
     let mut tree_no = 0u64;
@@ -499,60 +708,10 @@ pub fn child(seed: u64, nruns: usize, out_path: &str, thorough: bool) {
                 policy,
                 sched_seed: mix(&[seed, tree_no, r as u64]),
                 quit_at,
+                change_points: vec![],
             };
-            let rep2 = report.clone();
-            let spec2 = spec.clone();
-            let outp = out_path.clone();
-            let on_abort: Box<dyn Fn(&str, Value) + Send + Sync> = Box::new(move |kind, witness| {
-                let mut rep = rep2.lock().unwrap();
-                if kind == "livelock" {
-                    rep.violation(
-                        &format!("C07:{}:livelock", if spec2.quit_at.is_some() { "quit" } else { "noquit" }),
-                        format!(
-                            "all live workers spin in the idle loop and nobody can make progress ({} workers, policy {}, quit_at {:?}, after {} steps)",
-                            spec2.workers, spec2.policy.name(), spec2.quit_at, witness["steps"]
-                        ),
-                        || json!({"spec": spec2.to_json(), "witness": witness}),
-                    );
-                } else {
-                    rep.inconclusive += 1;
-                    rep.notes.push(format!("step bound exceeded without the livelock signature: {}", witness));
-                }
-                rep.count("runs_aborted");
-                let j = rep.to_json();
-                let _ = fs::write(&outp, serde_json::to_string(&j).unwrap());
-                // real threads are left spinning: leave the process
-                std::process::exit(0);
-            });
-            let out = scheduled_walk(&spec, &base, nentries, on_abort);
+            exec_spec(&spec, &base, nentries, &expected, &report, &out_path);
             done += 1;
-            let mut rep = report.lock().unwrap();
-            rep.evaluations += 1;
-            rep.count("scheduled_runs");
-            rep.count(&format!("policy_{}", match spec.policy { Policy::Uniform => "uniform", Policy::Pct(_) => "pct", Policy::Starve(_) => "starve" }));
-            rep.count(&format!("workers_{}", workers));
-            if quit_at.is_some() {
-                rep.count("runs_with_quit_injected");
-            }
-            rep.add("hook_steps", out.steps);
-            rep.add("steals_attempted", out.steals);
-            rep.add("idle_transitions", out.idle_transitions);
-            rep.add("quit_while_work_queued", out.quit_with_work_queued);
-            rep.add("visits_observed", out.visited.len() as u64);
-            rep.max("max_steps_in_a_run", out.steps);
-            let distinct_workers: std::collections::BTreeSet<usize> = out.visited.iter().map(|(w, _)| *w).collect();
-            if distinct_workers.len() > 1 {
-                rep.count("runs_where_several_workers_visited");
-            }
-            rep.nontrivial(out.decisions_hash);
-            judge(&spec, &expected, &out, &mut rep);
-            if rep.samples.len() < 2 {
-                rep.samples.push(json!({
-                    "tree_nodes": spec.tree.nodes.len(), "roots": spec.roots, "workers": spec.workers,
-                    "policy": spec.policy.name(), "quit_at": spec.quit_at, "hook_steps": out.steps,
-                    "visits": out.visited.iter().take(8).map(|(w, p)| format!("w{}:{}", w, p)).collect::<Vec<_>>(),
-                }));
-            }
         }
         let _ = fs::remove_dir_all(&private);
     }
@@ -614,7 +773,7 @@ pub fn stress(seed: u64, nruns: usize, rep: &mut Report) {
                 verif::set_hook(None);
                 rep.evaluations += 1;
                 rep.count("stress_runs");
-                let spec = RunSpec { tree: tree.clone(), roots: roots.clone(), workers, policy: Policy::Uniform, sched_seed: 0, quit_at };
+                let spec = RunSpec { tree: tree.clone(), roots: roots.clone(), workers, policy: Policy::Uniform, sched_seed: 0, quit_at, change_points: vec![] };
                 let out = RunOutcome { visited: visited.lock().unwrap().clone(), steps: 0, decisions_hash: 0, steals: 0, idle_transitions: 0, quit_with_work_queued: 0 };
                 rep.add("stress_visits", out.visited.len() as u64);
                 judge(&spec, &expected, &out, rep);
@@ -672,7 +831,7 @@ pub fn miri_walks(seed: u64) -> Report {
         });
         rep.evaluations += 1;
         rep.count("miri_walks");
-        let spec = RunSpec { tree: t.clone(), roots: roots.clone(), workers, policy: Policy::Uniform, sched_seed: seed, quit_at };
+        let spec = RunSpec { tree: t.clone(), roots: roots.clone(), workers, policy: Policy::Uniform, sched_seed: seed, quit_at, change_points: vec![] };
         let out = RunOutcome { visited: visited.lock().unwrap().clone(), steps: 0, decisions_hash: mix(&[seed, round as u64]), steals: 0, idle_transitions: 0, quit_with_work_queued: 0 };
         rep.nontrivial(out.decisions_hash);
         judge(&spec, &expected, &out, &mut rep);
@@ -700,6 +859,8 @@ pub fn run(ctx: &Ctx) -> Report {
             .arg(per.to_string())
             .arg("--tier")
             .arg(if ctx.tier == Tier::Thorough { "thorough" } else { "quick" })
+            .arg("--shard")
+            .arg(format!("{}/{}", i, procs))
             .arg("--out")
             .arg(&out)
             .stdout(std::process::Stdio::null())
